@@ -62,7 +62,17 @@ Additions of the loop ties of C03 / C20 (marked `[loop ties C03]` / `[loop ties 
                `T['col'] = [E for row in T.itertuples(index=False)]` read per row as `T['col'] = E` (cells are `row.<column>`);
                [loop ties C09] `T = T.assign(c1=v1, ..)` with constant / plain-name values read as `T['c1'] = v1; ..`; a load
                `T.loc[mask, 'col']` is `T['col'][mask]`;
-               an `if` of assignments none of which is read afterwards is refused (it used to end in an IndexError)"""
+               an `if` of assignments none of which is read afterwards is refused (it used to end in an IndexError)
+
+Additions of the loop ties of C19 / C17, second wave (marked `[loop ties e2]`; additive, fail-closed):
+  signature  : spec key `allow_kwarg=True` accepts a `**kwargs` parameter that is never read in the translation (only inside
+               an opaque keyed input such as `f(a, **kwargs)`)
+  types      : AQ (a 1-d float numpy ARRAY as a value): `np.array([e1, .., en])`, `k * x` / `x * k` elementwise, `list(x)` -> LQ
+  statements : `if c: pass` (no else) is dropped like an `if` of log lines; spec key `items=<X>`: `X = [(E1, .., En) for a1, .., an
+               in X]` read for one item as `a1, .., an = E1, .., En`; spec key `dict_prelude=<prefix>` (loop specs): one top-level
+               `name = {...}` dict display before the loop is translated in front of the iteration (a constant table)
+  expressions: spec key `rows=[X, ..]`: `np.fromiter(map(F, X), np.float64[, n])` read for one row as F(this row's entry of X)
+  (already present before this wave and used by it: chained comparisons `a < b < c`, `e ** k` for k = 2..8, log lines dropped)"""
 import ast, os, sys, glob, importlib.util
 from fractions import Fraction
 
